@@ -3,6 +3,9 @@ C14 — Paths rebuild the same regions from segments in any order.
 Property theorems only; helper lemmas live in Proofs/Path.lean.
 -/
 import TrimeshVerif.Proofs.Path
+import TrimeshVerif.Generated.C14Arc
+import Mathlib.Tactic.Ring
+import Mathlib.Tactic.FieldSimp
 namespace TV.C14
 open TV.Path
 
@@ -64,5 +67,30 @@ theorem C14_arc_collinear (p0 p1 p2 : P2) (h : cross2 (sub2 p1 p0) (sub2 p2 p0) 
 theorem C14_region_orientation (shell : List P2) (holes : List (List P2)) :
     regionArea2 shell.reverse (holes.map List.reverse) = regionArea2 shell holes := by
   exact regionArea2_reverse shell holes
+
+
+/-! ### (G) `arc_center` traced from the source (Generated/C14Arc.lean) -/
+
+section arcsrc
+open TV.Generated.C14
+
+/-- (G) **the centre the code computes is the centre of the model**: same weights, same denominator, for every
+    three control points (so `C14_arc_center` and `C14_arc_collinear` are statements about the source) -/
+theorem C14_arc_center_of_source (x0 y0 x1 y1 x2 y2 : Rat) (hd : centerDen x0 y0 x1 y1 x2 y2 ≠ 0) :
+    arcCenter (x0, y0) (x1, y1) (x2, y2) =
+      some (centerNumX x0 y0 x1 y1 x2 y2 / centerDen x0 y0 x1 y1 x2 y2,
+            centerNumY x0 y0 x1 y1 x2 y2 / centerDen x0 y0 x1 y1 x2 y2) := by
+  have e : sqLen (x2, y2) (x1, y1) * (sqLen (x0, y0) (x2, y2) + sqLen (x1, y1) (x0, y0) - sqLen (x2, y2) (x1, y1)) +
+      sqLen (x0, y0) (x2, y2) * (sqLen (x2, y2) (x1, y1) + sqLen (x1, y1) (x0, y0) - sqLen (x0, y0) (x2, y2)) +
+      sqLen (x1, y1) (x0, y0) * (sqLen (x2, y2) (x1, y1) + sqLen (x0, y0) (x2, y2) - sqLen (x1, y1) (x0, y0))
+      = centerDen x0 y0 x1 y1 x2 y2 := by
+    simp only [sqLen, sub2, centerDen]; ring
+  unfold arcCenter
+  simp only [e, hd, if_false, Option.some.injEq, Prod.mk.injEq]
+  constructor
+  · congr 1; simp only [sqLen, sub2, centerNumX]; ring
+  · congr 1; simp only [sqLen, sub2, centerNumY]; ring
+
+end arcsrc
 
 end TV.C14
